@@ -40,7 +40,7 @@ TInit ==
     /\ now = 0
 
 E == Rec[l]
-Consume == l <= Len(Rec) /\ l' = l + 1 /\ Reach(l + 1)
+Consume == l <= Len(Rec) /\ l' = l + 1
 
 \* virtual time jumps to the instant of the event; nobody who could run earlier is left behind
 AdvanceTo(t) ==
@@ -124,7 +124,8 @@ TRet ==
               [] OTHER -> v >= 1
     /\ Same
 
-TNext == TReset \/ TCall \/ TTick \/ TFire \/ TSpur \/ TPush \/ TUnblock \/ TCheck \/ TGiveup \/ TRet
+\* the register is advanced only by a step that was actually taken (all of its guards held)
+TNext == (TReset \/ TCall \/ TTick \/ TFire \/ TSpur \/ TPush \/ TUnblock \/ TCheck \/ TGiveup \/ TRet) /\ Reach(l')
 
 TSpec == TInit /\ [][TNext]_tvars
 
